@@ -67,6 +67,47 @@ func enclosingDefault(d *ast.FuncDecl, call *ast.CallExpr) (ast.Stmt, *ast.CaseC
 		}
 		return true
 	})
+	if sw != nil {
+		return sw, cl
+	}
+	// `switch x { case A: return …; case B: return … }` followed at once by the abort: the abort is the default of that
+	// switch, written after it (every clause leaves, there is no default clause)
+	ast.Inspect(d.Body, func(n ast.Node) bool {
+		blk, ok := n.(*ast.BlockStmt)
+		if !ok {
+			return true
+		}
+		for i, st := range blk.List {
+			if i == 0 || !(st.Pos() <= call.Pos() && call.End() <= st.End()) {
+				continue
+			}
+			if es, ok := st.(*ast.ExprStmt); !ok || ast.Unparen(es.X) != ast.Expr(call) {
+				continue
+			}
+			var body *ast.BlockStmt
+			switch p := blk.List[i-1].(type) {
+			case *ast.SwitchStmt:
+				body = p.Body
+			case *ast.TypeSwitchStmt:
+				body = p.Body
+			}
+			if body == nil {
+				continue
+			}
+			allLeave := len(body.List) > 0
+			for _, c := range body.List {
+				cc := c.(*ast.CaseClause)
+				if cc.List == nil || len(cc.Body) == 0 || !stmtLeaves(cc.Body[len(cc.Body)-1]) {
+					allLeave = false
+				}
+			}
+			if allLeave {
+				sw = blk.List[i-1]
+				cl = nil
+			}
+		}
+		return true
+	})
 	return sw, cl
 }
 
